@@ -96,9 +96,7 @@ for _prop, _e, _n, _d in (('C02', 'h_perm', 'perm', 'random_permutation_fast: re
       desc=_d, symbolic='all draws (each in its requested range)', bounds='n = 2..6 (quick) / 2..9 (thorough), one query per n',
       assumptions=['bounded sampler replaced by its contract: an arbitrary value in [0, m) for the requested m (the sampler itself is C07_nomodbias)'],
       slices=[{'H_N': n} for n in range(2, 7)], tiers={'thorough': {'slices': [{'H_N': n} for n in range(2, 10)]}})
-H(id='C02_sts_import', property='C02', src='C02_import.cc', entry='h_sts_import', tu=['VTMF_CardSecret.cc', 'parse_helper.cc', 'mpz_helper.cc'], unwind=12, paths=True, defines={'VF_BITS': 15},
-  desc='TMCG_StackSecret<VTMF_CardSecret>::import accepts exactly the bijective index vectors', symbolic='the whole index vector in {0..9}^n (all 10^n vectors in one query)',
-  bounds='n = 1..4 (quick) / 1..6 (thorough); single-digit indices; card secret text fixed', slices=[{'H_N': n} for n in range(1, 5)], tiers={'thorough': {'slices': [{'H_N': n} for n in range(1, 7)]}})
+# C02_sts_import (TMCG_StackSecret::import accepts exactly bijections) is not registered: symbolic text parsing did not fit the budget (see DESIGN.md)
 
 # ------------------------------------------------------------------ protocol harnesses: common settings
 PROTO_REPLACE = dict(COIN)
@@ -204,3 +202,13 @@ def PROTO4(name, entry, desc, sym):
 PROTO4('vtmf_cp', 'h_w_cp', 'CP proof for x=gg^a, y=hh^b, a != b: accepted only if c == 0 (mod q)', 'a, b, bases, coin, digests')
 PROTO4('vtmf_mask', 'h_w_mask', 'masking proof presented for another message: accepted only if c == 0 (mod q)', 'key, both messages, masking exponent, coins, digests')
 PROTO4('vtmf_decrypt', 'h_w_decrypt', 'decryption share computed with a key other than the published one: accepted only if c == 0 (mod q)', 'both keys, replacement key, c_1, coins, digests')
+
+# ------------------------------------------------------------------ C01
+H(id='C01_cs_xor', property='C01', src='C01_card.cc', entry='h_cs_xor', tu=['SchindelhauerTMCG.cc', 'TMCG_CardSecret.cc', 'TMCG_PublicKey.cc', 'TMCG_Card.cc'], unwind=6, unwindset={'_ZNSt11char_traitsIcE6lengthEPKc.0': 64, '_ZNSs6appendEPKcm.1': 64}, timeout=1500, replace=PROTO_REPLACE,
+  defines={'VF_BITS': 12, 'H_MAXDRAWS': 40, 'H_DBITS': 4, 'MINISTL_STREAM_CAP': 128, 'H_COINS_UNITS': 1}, config={'TMCG_MAX_FPOWM_T': 8, 'TMCG_MAX_PLAYERS': 4, 'TMCG_MAX_TYPEBITS': 3},
+  desc='quadratic-residue encoding: a fresh card secret preserves the type (bit columns XOR to 0) for k players', symbolic='player index, all random bits and masking values',
+  bounds='k = 2,3 players (one query each), w = 2 type bits, modulus 21; rejection sampling of units succeeds at the first draw', assumptions=PROTO_ASSUME, slices=[{'H_KPL': k} for k in (2, 3)], backend='kissat', memgb=8)
+
+# ------------------------------------------------------------------ C11 (real text operators)
+H(id='C11_mpz_text', property='C11', src='C11_roundtrip.cc', entry='h_mpz_text', tu=['mpz_helper.cc'], unwind=12, defines={'VF_BITS': 13, 'H_VMAX': 4000, 'MINISTL_STREAM_CAP': 64},
+  desc='operator<< / operator>> for mpz (base-62 text): value and text round trip', symbolic='integer in [-4000, 4000]', bounds='|v| <= 4000 (up to two base-62 digits and sign)', models=GCRY_MODELS, backend='kissat')
